@@ -130,6 +130,48 @@ def rule_accessors(ctx, cmod, model, all_keys):
                           "%s(%r) after the other keys were asked (%s)" % (label, key, oname),
                           "answer depends on earlier requests: %s instead of %s" % (short(repr(got), 200), short(repr(want), 120)))
 
+    # the caller owns what it was handed: editing an answer (the list and every chord in it) and asking
+    # again gives the chords of the key, through the table functions and the accessors that read them
+    readers = [(n, d, s) for n, d, s in have if n in ("tonic", "tonic7", "I", "I7", "dominant7", "V7", "subtonic", "vii7")]
+    for key in (all_keys[0], all_keys[len(all_keys) // 2], all_keys[-1]):
+        out = {}
+
+        def history(it):
+            for label, f in (("triads", tri), ("sevenths", sev)):
+                try:
+                    first = it.call_function(f, [key], {})
+                    if isinstance(first, list):
+                        for chord in first:
+                            if isinstance(chord, list):
+                                chord.reverse()
+                                chord.append("X")
+                        del first[1:]
+                    out[label] = ("return", it.call_function(f, [key], {}))
+                    for n, d, s in readers:
+                        out[label + ">" + n] = ("return", it.call_function(cmod.func(n), [key], {}))
+                except RaiseEx as r:
+                    out[label] = ("raise", r.exc)
+            return None
+        try:
+            paths = explore(lambda ch: Interp(ctx.repo, ch, summaries=model), history)
+        except CannotDecide as e:
+            raise AnalysisError("chord tables after an edited answer in key %r: %s" % (key, e))
+        if len(paths) != 1:
+            raise AnalysisError("chord tables after an edited answer in key %r forked into %d paths" % (key, len(paths)))
+        for label, seventh, f in (("triads", False, tri), ("sevenths", True, sev)):
+            want = [expected_stack(key, d, seventh) for d in range(7)]
+            ctx.check(out.get(label) == ("return", want), R, "%s[%s|after its answer was edited]" % (label, key), f.where(),
+                      "%s(%r), the chords of the first answer reversed and extended by the caller, then asked again" % (label, key),
+                      "the caller's edit reached the table: %s instead of %s" % (short(repr(out.get(label)), 200), short(repr(want), 120)))
+            for n, d, s in readers:
+                got = out.get(label + ">" + n)
+                if got is None:
+                    continue
+                want1 = expected_stack(key, d, s)
+                ctx.check(got == ("return", want1), R, "%s[%s|after %s answer was edited]" % (n, key, label), cmod.func(n).where(),
+                          "%s(%r) after the caller edited the chords %s(%r) handed out" % (n, key, label, key),
+                          "the caller's edit reached the table: %s instead of %s" % (short(repr(got), 160), want1))
+
 
 # ------------------------------------------------------------------------------ parser / formatter
 def rule_parse_format(ctx, pmod, model):
